@@ -393,26 +393,87 @@ pub fn brief(b: &[u8]) -> serde_json::Value {
     serde_json::json!({"len": b.len(), "head": hex(head), "b3": hex(&blake3::hash(b).as_bytes()[..6])})
 }
 
-/// Parallel map over case indices with per-worker reports, merged in index order
-/// of workers (deterministic given seed and worker count independent results).
+thread_local! {
+    static CASE_DEPTH: Cell<u32> = const { Cell::new(0) };
+}
+static WORKERS: std::sync::atomic::AtomicUsize = std::sync::atomic::AtomicUsize::new(0);
+/// `--threads N`: how many harness workers `par_cases` starts (default: one per core).
+pub fn set_workers(n: usize) {
+    WORKERS.store(n, std::sync::atomic::Ordering::Relaxed);
+}
+
+/// Parallel map over case indices with per-chunk reports, merged in chunk order (deterministic given the seed,
+/// whatever the worker count and schedule).
+///
+/// The workers are plain scoped threads, NOT workers of rayon's global pool. copia itself uses that pool
+/// (`Signature::generate` hashes a basis of more than 64 KiB with `par_chunks`); a rayon worker that waits for such a
+/// nested job steals other queued jobs meanwhile, so a harness case running on a rayon worker could be interrupted,
+/// on the same thread, by a whole other harness case. Everything the harness keeps per thread would then be shared by
+/// two cases at once: the tokio runtime of `engines::block_on` (the nested `block_on` panics "Cannot start a runtime
+/// from within a runtime" - a panic of the harness that was reported against `sync_files`, DESIGN 8.3) and the
+/// allocation accounting of `alloc_scope`. From a plain thread the nested job is handed to the pool and the caller
+/// just blocks, which is also how the CLI reaches that code (a tokio thread, not a rayon worker).
 pub fn par_cases(n: u64, f: impl Fn(u64, &mut Report) + Sync) -> Report {
-    use rayon::prelude::*;
+    use std::sync::atomic::{AtomicU64, Ordering};
     let chunk = (n / 128).clamp(1, 64);
-    let chunks: Vec<u64> = (0..n.div_ceil(chunk)).collect();
-    let reps: Vec<Report> = chunks
-        .par_iter()
-        .map(|c| {
-            let mut r = Report::default();
-            let lo = c * chunk;
-            let hi = ((c + 1) * chunk).min(n);
-            for i in lo..hi {
-                f(i, &mut r);
+    let nchunks = n.div_ceil(chunk);
+    let run_chunk = |c: u64| {
+        let mut r = Report::default();
+        let lo = c * chunk;
+        let hi = ((c + 1) * chunk).min(n);
+        for i in lo..hi {
+            // the assumption above is monitored, not trusted: a case that starts while another one is still running
+            // on the same thread is a failure of the machinery (exit 2), never a verdict about copia
+            if CASE_DEPTH.with(|d| d.replace(d.get() + 1)) != 0 {
+                eprintln!("harness panic: a case started on a thread that is still inside another case");
+                std::process::exit(2);
             }
-            r
+            f(i, &mut r);
+            CASE_DEPTH.with(|d| d.set(d.get() - 1));
+        }
+        r
+    };
+    let mut workers = WORKERS.load(Ordering::Relaxed);
+    if workers == 0 {
+        workers = std::thread::available_parallelism().map(|p| p.get()).unwrap_or(4);
+    }
+    let workers = workers.min(nchunks.max(1) as usize);
+    let mut done: Vec<(u64, Report)> = if workers <= 1 {
+        (0..nchunks).map(|c| (c, run_chunk(c))).collect()
+    } else {
+        let next = AtomicU64::new(0);
+        std::thread::scope(|s| {
+            let hs: Vec<_> = (0..workers)
+                .map(|w| {
+                    let (next, run_chunk) = (&next, &run_chunk);
+                    std::thread::Builder::new()
+                        .name(format!("vh-case-{w}"))
+                        .stack_size(8 << 20)
+                        .spawn_scoped(s, move || {
+                            let mut mine = Vec::new();
+                            loop {
+                                let c = next.fetch_add(1, Ordering::Relaxed);
+                                if c >= nchunks {
+                                    break;
+                                }
+                                mine.push((c, run_chunk(c)));
+                            }
+                            mine
+                        })
+                        .expect("spawn harness worker")
+                })
+                .collect();
+            hs.into_iter()
+                .flat_map(|h| match h.join() {
+                    Ok(v) => v,
+                    Err(e) => std::panic::resume_unwind(e),
+                })
+                .collect()
         })
-        .collect();
+    };
+    done.sort_by_key(|(c, _)| *c);
     let mut out = Report::default();
-    for r in reps {
+    for (_, r) in done {
         out.merge(r);
     }
     out
